@@ -386,6 +386,12 @@ pub fn check_wire(p: &Proto, mode: Mode, slack: Option<(isize, isize)>) -> (Vec<
 /// `scripted`: ephemeral keys are generated from the resolver's random source (a scripted stream) instead of being
 /// fixed: whichever member provides the DH function, the keys must come from the resolved random source
 pub fn check_wire_with(p: &Proto, mode: Mode, slack: Option<(isize, isize)>, scripted: bool) -> (Vec<(String, String, Config, Vec<Op>)>, u64) {
+    check_wire_full(p, mode, slack, scripted, false)
+}
+
+/// `long`: a 200-byte prologue and handshake payloads of 150 / 128 / 127 / 300 bytes - inputs longer than a hash
+/// block reach the hash objects in one piece (a backend that buffers short inputs must keep the order)
+pub fn check_wire_full(p: &Proto, mode: Mode, slack: Option<(isize, isize)>, scripted: bool, long: bool) -> (Vec<(String, String, Config, Vec<Op>)>, u64) {
     let mut ops = ops_for(p, mode);
     if let Some((kw, kr)) = slack {
         ops = ops
@@ -403,6 +409,16 @@ pub fn check_wire_with(p: &Proto, mode: Mode, slack: Option<(isize, isize)>, scr
     }
     let mut base = Config::honest(p, 0);
     base.crypto_oracle = false;
+    if long {
+        base.prologue = [vec![0x6c; 200], vec![0x6c; 200]];
+        let mut k = 0;
+        for op in ops.iter_mut() {
+            if let Op::HsWrite { plen, .. } = op {
+                *plen = [150usize, 128, 127, 300][k % 4];
+                k += 1;
+            }
+        }
+    }
     if scripted {
         base.eph = [crate::exec::Eph::Scripted(21), crate::exec::Eph::Scripted(1021)];
     }
@@ -443,7 +459,7 @@ pub fn run(tier: Tier) -> i32 {
     // the whole thorough product costs ~10 s: both tiers run it
     let quick = false;
     let thorough = !ctx.quick();
-    ctx.set_rule("wire part: every protocol name both backends serve (25519 x {ChaChaPoly, AESGCM} x {SHA256, SHA512}; BLAKE2 / XChaChaPoly / P256 names through the fallback) x all 9 assignments of {Default, Fallback(Ring, Default), Fallback(Default, Ring)} to the two endpoints, session = handshake + transport traffic + synchronised rekeys + more traffic, stateful and stateless, with comfortably large buffers and (every 4th name) with output buffers of exactly the needed size plus {0,1,8,15,16,17} bytes: identical bytes to the all-default session and every step Ok; every 6th name also with ephemerals generated from a scripted random source instead of fixed ones. built-in part: DefaultResolver and RingResolver answer Some exactly for their documented primitives and what they hand out is the named primitive (name + one known answer against the reference). fallback part: complete truth table of FallbackResolver over tagged stub resolvers (16 x 16 availability masks, nesting depth 2 on either side): Some iff a member provides the primitive, and the first member's; plus every sequence of three queries of one kind on the same instance over per-choice availability masks (the answer must not depend on earlier queries)");
+    ctx.set_rule("wire part: every protocol name both backends serve (25519 x {ChaChaPoly, AESGCM} x {SHA256, SHA512}; BLAKE2 / XChaChaPoly / P256 names through the fallback) x all 9 assignments of {Default, Fallback(Ring, Default), Fallback(Default, Ring)} to the two endpoints, session = handshake + transport traffic + synchronised rekeys + more traffic, stateful and stateless, with comfortably large buffers and (every 4th name) with output buffers of exactly the needed size plus {0,1,8,15,16,17} bytes: identical bytes to the all-default session and every step Ok; every 6th name also with ephemerals generated from a scripted random source instead of fixed ones, every 3rd with a 200-byte prologue and handshake payloads of 127..300 bytes. built-in part: DefaultResolver and RingResolver answer Some exactly for their documented primitives and what they hand out is the named primitive (name + one known answer against the reference). fallback part: complete truth table of FallbackResolver over tagged stub resolvers (16 x 16 availability masks, nesting depth 2 on either side): Some iff a member provides the primitive, and the first member's; plus every sequence of three queries of one kind on the same instance over per-choice availability masks (the answer must not depend on earlier queries)");
     fallback_table(&ctx);
     builtin_table(&ctx);
     let mut names: Vec<Proto> = vec![];
@@ -475,6 +491,9 @@ pub fn run(tier: Tier) -> i32 {
             let mut res = vec![check_wire(p, m, sl)];
             if scripted_too && sl.is_none() {
                 res.push(check_wire_with(p, m, None, true));
+            }
+            if sl.is_none() && k % 3 == 1 {
+                res.push(check_wire_full(p, m, None, false, true));
             }
             for (v, n) in res {
             ctx.add(&ctx.evaluations, n);
